@@ -188,6 +188,10 @@ def mk_call(site, callee, args, argtys=None):
         return args[0][5][0][1]
     if d in ("core::option::Option::<T>::unwrap", "core::option::Option::<T>::expect", "core::option::Option::<T>::unwrap_unchecked") and args and args[0][0] == "agg" and args[0][3] == "Some":
         return args[0][5][0][1]
+    if d == "core::mem::take" and args:
+        # the old value of a place that is not part of an RcBox (those are move-out events)
+        if box_part(args[0]) is None:
+            return mk_deref(args[0])
     if d == "core::cmp::Ord::min" and len(args) == 2 and (is_const(args[0], 0) or is_const(args[1], 0)):
         return const(0)
     if d == "core::ops::FromResidual::from_residual" and callee and (callee.get("self_ty") or {}).get("adt") == "core::result::Result" and (callee.get("self_ty") or {}).get("peel", 0) == 0:
